@@ -256,3 +256,12 @@ _P = 'pyformlang/cfg/cfg.py'
 TARGETS = {'CFG.reverse': (_P, 'CFG.reverse'), 'CFG.get_reachable_symbols': (_P, 'CFG.get_reachable_symbols'),
            'CFG.get_unit_pairs': (_P, 'CFG.get_unit_pairs'), 'CFG.eliminate_unit_productions': (_P, 'CFG.eliminate_unit_productions'),
            'CFG.is_empty': (_P, 'CFG.is_empty'), 'CFG.remove_useless_symbols': (_P, 'CFG.remove_useless_symbols'), 'fn.get_productions_d': ('pyformlang/cfg/utils_cfg.py', 'fn.get_productions_d')}
+
+_C = 'pyformlang/cfg/cfg.py'
+SMOKE = [
+    ('CFG.get_reachable_symbols', _C, "                    r_symbols.add(next_symbol)\n                    to_process.append(next_symbol)", "                    r_symbols.add(next_symbol)", 'break'),
+    ('CFG.reverse', _C, "production.body[::-1]", "production.body", 'break'),
+    ('CFG.get_unit_pairs', _C, "                    unit_pairs.add(temp)\n                    to_process.append(temp)", "                    unit_pairs.add(temp)", 'break'),
+    ('CFG.eliminate_unit_productions', _C, "                       if len(x.body) != 1\n                       or not isinstance(x.body[0], Variable)]\n        productions_d", "                       if len(x.body) != 1\n                       or isinstance(x.body[0], Variable)]\n        productions_d", 'break'),
+    ('CFG.is_empty', _C, "return self._start_symbol not in self.get_generating_symbols()", "return self._start_symbol in self.get_generating_symbols()", 'break'),
+]
